@@ -103,9 +103,9 @@ impl<T: El> Interp<T> {
       }
       "extend_from_within" => {
         argc(4)?;
-        let (a, b) = (script::bound(t[2])?, script::bound(t[3])?);
+        let rg = script::ScriptRange::parse(t[2], t[3])?;
         self.room(v.len())?;
-        done(scoped(|| v.extend_from_within((a, b))))
+        done(scoped(|| v.extend_from_within(rg)))
       }
       "dedup" => {
         argc(2)?;
